@@ -23,10 +23,13 @@ C = {
          "structural AST comparison in TLA+ of parse/print round trips (Trace_Ast)"),
  "C12": ("ast-pipeline", "model_checking", "each validation switch rejects exactly the ASTs with the L1 defect (Validation.tla), parameter sets / parsers accept exactly ObeysContext / ObeysSane, limits exact w.r.t. published figures, lattice monotone, descriptor parsers and constructors accept only context-obeying scripts; over all enumerated typed and untyped ASTs in 4 contexts", "5/C12",
          "TLA+ Validation.tla defect predicates vs. library validate()/parsers/constructors (Trace_Ast)"),
+ "C13": ("interp-pipeline", "model_checking", "every library satisfaction and every single-element mutation of it, under every lock/sequence environment, is run through the real interpreter with real signature checks and re-executed by the TLA+ VM under consensus rules: accept => VM accepts, constraint bag = VM executed-path log, constraints satisfy the lifted policy; completeness on sane descriptors", "5/C13",
+         "TLA+ Script VM as reference executor vs. real Interpreter on mutated witnesses (Trace_Interp)"),
  "C19": ("pairs-pipeline", "model_checking", "full ordered pair matrix of ==, cmp, hash and to_string over every well-typed miniscript up to the node bound plus near-miss families, in explicit and sugared text, 4 contexts; every cell judged against abstract AST identity; ordering checked to be a strict total order (distinct scores)", "5/C19",
          "structural identity of abstract ASTs (TLA+ Gen_Pairs) vs. library Eq/Ord/Hash matrix (Trace_Eq)"),
 }
 ENG = {
+ "interp-pipeline": ("bin/check (run_interp)", "TLC Gen_Sat -> msverif interp (library satisfactions + rendered mutations) -> TLC Trace_Interp"),
  "typesound-pipeline": ("bin/check (run_typesound)", "TLC Gen_Ast -> msverif ast -> TLC Trace_TypeSound + MC_TypeSound"),
  "pairs-pipeline": ("bin/pipe_generic.py", "TLC Gen_Pairs -> msverif pairs -> TLC Trace_Eq"),
  "sat-pipeline": ("bin/pipe_sat.py", "TLC Gen_Sat -> msverif sat (real library + alpha) -> TLC Trace_Sat + MC_SatSet"),
